@@ -125,6 +125,13 @@ def main():
                 meta = json.load(open(mp))
                 corpus.append({"id": "seeded/" + d, "kind": "mutant", "props": meta.get("run_checks") or [meta["property"]],
                                "expect": meta.get("expect", "caught"), "ops": [["patch", "seeded/%s/patch.diff" % d]]})
+    rdir = os.path.join(VERIF, "seeded_refactors")
+    if seeded and os.path.isdir(rdir):
+        allp = [c["property_id"] for c in json.load(open(os.path.join(VERIF, "MANIFEST.json")))["checks"]]
+        for d in sorted(os.listdir(rdir)):
+            if os.path.exists(os.path.join(rdir, d, "patch.diff")):
+                corpus.append({"id": "seeded_refactors/" + d, "kind": "refactor", "props": allp, "expect": "silent",
+                               "ops": [["patch", "seeded_refactors/%s/patch.diff" % d]]})
     if only:
         corpus = [e for e in corpus if only.search(e["id"])]
     results = []
